@@ -795,6 +795,10 @@ extern "C" int __wrap_fflush(FILE*f){ if(!g_active || !f) return __real_fflush(f
 extern "C" int __wrap_fseek(FILE*f,long o,int w){ if(!g_active) return __real_fseek(f,o,w); IGN; if(stdio_flushing(f,"fseek",ENOSPC)) return -1; return __real_fseek(f,o,w); }
 extern "C" int __wrap_fseeko(FILE*f,off_t o,int w){ if(!g_active) return __real_fseeko(f,o,w); IGN; if(stdio_flushing(f,"fseeko",ENOSPC)) return -1; return __real_fseeko(f,o,w); }
 extern "C" int __wrap_fclose(FILE*f){ if(g_active) stdio_tracked.erase(f); return __real_fclose(f); }
+// a read from a tracked stream that comes back short (I/O error after some bytes, file shrunk under the reader): armed with Params.fread_short_bytes
+extern "C" size_t __real_fread(void*,size_t,size_t,FILE*);
+extern "C" size_t __wrap_fread(void*p,size_t sz,size_t n,FILE*f){ if(!g_active || P.fread_short_bytes==(size_t)-1 || sz*n==0 || !stdio_tracked.count(f) || sz*n<=P.fread_short_bytes) return __real_fread(p,sz,n,f); IGN;
+	S.fread_short++; trace_mix(0xF2EAD); tracef("fread: %zu of %zu bytes, then an error",P.fread_short_bytes,sz*n); size_t k=P.fread_short_bytes ? __real_fread(p,1,P.fread_short_bytes,f) : 0; errno=EIO; return k/sz; }
 
 // ================================================================ hooks called from /repo (guard ARTYOM_BEILIS_CPPCMS_VERIF)
 namespace simk { std::map<std::string,uint64_t> g_probes; std::map<std::string,uint64_t> &probes(){ return g_probes; } }
